@@ -26,6 +26,9 @@ RULES = [
     ['b a &'],                      # '&' last
     ['a b a & X'],                  # three words, overlapping at the shared word
     ['a & aaa', 'aaa b & Y'],       # growth then a rule using inserted characters
+    ['a & \\b.', 'b & \\1\\n'],       # backslashes in the replacement are literal text
+    ['a. b'],                       # no '&', last word ends with a letter, the word before does not
+    ['a b.'],                       # no '&', the other way round
 ]
 
 
